@@ -1129,9 +1129,43 @@ func ruleFoldAgree(p *Program, r *Reporter) {
 		if isPush || isNop {
 			continue
 		}
+		// the fold may have a function of its own: the case only calls it with
+		// the window; then that function's body is what is read
+		var body ast.Node = cl
+		opParam := info.Uses[ast.Unparen(sw.Tag).(*ast.Ident)]
+		var foldFn *ssa.Function
+		{
+			var helpers []*types.Func
+			readsWindow := false
+			ast.Inspect(cl, func(n ast.Node) bool {
+				switch x := n.(type) {
+				case *ast.CallExpr:
+					if f, ok := calleeObj(info, x).(*types.Func); ok && f.Pkg() != nil && f.Pkg().Path() == Mod+"/vm" {
+						helpers = append(helpers, f)
+					}
+				case *ast.IndexExpr:
+					if be, ok := ast.Unparen(x.Index).(*ast.BinaryExpr); ok && be.Op == token.SUB {
+						readsWindow = true
+					}
+				}
+				return true
+			})
+			if !readsWindow && len(helpers) == 1 {
+				if g := p.SSA.FuncValue(helpers[0]); g != nil && p.FuncDecl(g) != nil && p.FuncDecl(g).Body != nil {
+					body, foldFn = p.FuncDecl(g).Body, g
+					opParam = nil
+					sig := helpers[0].Type().(*types.Signature)
+					for i := 0; i < sig.Params().Len(); i++ {
+						if isOpcodeType(sig.Params().At(i).Type()) {
+							opParam = sig.Params().At(i)
+						}
+					}
+				}
+			}
+		}
 		// which local is the later push (index len-1) and which the earlier (len-2)
 		last, prev := types.Object(nil), types.Object(nil)
-		ast.Inspect(cl, func(n ast.Node) bool {
+		ast.Inspect(body, func(n ast.Node) bool {
 			as, ok := n.(*ast.AssignStmt)
 			if !ok || len(as.Lhs) != 1 || len(as.Rhs) != 1 {
 				return true
@@ -1184,7 +1218,6 @@ func ruleFoldAgree(p *Program, r *Reporter) {
 		}
 		// per opcode: the computation guarded by `opCode == X` (or the clause's
 		// single opcode)
-		opParam := info.Uses[ast.Unparen(sw.Tag).(*ast.Ident)]
 		type comp struct {
 			be  *ast.BinaryExpr
 			pos token.Pos
@@ -1193,9 +1226,30 @@ func ruleFoldAgree(p *Program, r *Reporter) {
 		var walk func(n ast.Node, only string)
 		walk = func(n ast.Node, only string) {
 			ast.Inspect(n, func(m ast.Node) bool {
+				// `switch opCode { case X: … }` inside the fold
+				if s2, ok := m.(*ast.SwitchStmt); ok && s2.Tag != nil && opParam != nil {
+					if id, ok := ast.Unparen(s2.Tag).(*ast.Ident); ok && info.Uses[id] == opParam {
+						for _, c2 := range s2.Body.List {
+							cl2 := c2.(*ast.CaseClause)
+							for _, e := range cl2.List {
+								if o := opConstName(info, e); o != "" {
+									for _, st := range cl2.Body {
+										walk(st, o)
+									}
+								}
+							}
+							if cl2.List == nil {
+								for _, st := range cl2.Body {
+									walk(st, only)
+								}
+							}
+						}
+						return false
+					}
+				}
 				if iff, ok := m.(*ast.IfStmt); ok {
 					if be, ok := ast.Unparen(iff.Cond).(*ast.BinaryExpr); ok && be.Op == token.EQL {
-						if id, ok := ast.Unparen(be.X).(*ast.Ident); ok && info.Uses[id] == opParam {
+						if id, ok := ast.Unparen(be.X).(*ast.Ident); ok && opParam != nil && info.Uses[id] == opParam {
 							if o := opConstName(info, be.Y); o != "" {
 								walk(iff.Body, o)
 								if iff.Else != nil {
@@ -1221,8 +1275,14 @@ func ruleFoldAgree(p *Program, r *Reporter) {
 				return true
 			})
 		}
-		for _, st := range cl.Body {
-			walk(st, "")
+		if bs, ok := body.(*ast.BlockStmt); ok {
+			for _, st := range bs.List {
+				walk(st, "")
+			}
+		} else {
+			for _, st := range cl.Body {
+				walk(st, "")
+			}
 		}
 		for _, op := range ops {
 			key := "fold of " + op
@@ -1268,12 +1328,21 @@ func ruleFoldAgree(p *Program, r *Reporter) {
 						good, why = false, fmt.Sprintf("the fold of %s compares with %q; the VM applies %q", op, c.be.Op, want)
 					}
 				}
+				if !good && foldFn != nil {
+					// the comparison may be shared and its result turned round for
+					// one of the opcodes: what is written for equal / unequal entries
+					if ok2, detail := compareFoldByValue(p, foldFn, op, want); ok2 {
+						good, why = true, ""
+						r.OkNT(key, p.Pos(cs[0].pos), detail)
+						continue
+					}
+				}
 				r.Check(good, key, p.Pos(cs[0].pos), "same comparison as the VM", why)
 			} else if op == "OpSquareRoot" {
 				// VM: the result of √ is always a float; a fold that writes an integer
 				// push changes the type
 				writesPush := false
-				ast.Inspect(cl, func(n ast.Node) bool {
+				ast.Inspect(body, func(n ast.Node) bool {
 					if ce, ok := n.(*ast.CallExpr); ok {
 						if f, ok := calleeObj(info, ce).(*types.Func); ok && (f.Name() == "PutUint16" || writesOperandHelper(p, f)) {
 							writesPush = true
@@ -1300,7 +1369,7 @@ func ruleFoldAgree(p *Program, r *Reporter) {
 		}
 		if hasDiv {
 			guarded := false
-			ast.Inspect(cl, func(n ast.Node) bool {
+			ast.Inspect(body, func(n ast.Node) bool {
 				iff, ok := n.(*ast.IfStmt)
 				if !ok {
 					return true
@@ -1326,7 +1395,67 @@ func ruleFoldAgree(p *Program, r *Reporter) {
 			}
 			// the write of the result is under a range test
 			ranged := false
-			ast.Inspect(cl, func(n ast.Node) bool {
+			// written as a guard that leaves when the result does not fit — the
+			// bounds possibly in a predicate of their own — followed by the write
+			if bs, ok := body.(*ast.BlockStmt); ok {
+				for i, st := range bs.List {
+					iff, ok := st.(*ast.IfStmt)
+					if !ok || iff.Else != nil || len(iff.Body.List) == 0 {
+						continue
+					}
+					if _, isRet := iff.Body.List[len(iff.Body.List)-1].(*ast.ReturnStmt); !isRet {
+						continue
+					}
+					ue, ok := ast.Unparen(iff.Cond).(*ast.UnaryExpr)
+					if !ok || ue.Op != token.NOT {
+						continue
+					}
+					lo, hi := false, false
+					ast.Inspect(ue.X, func(m ast.Node) bool {
+						switch x := m.(type) {
+						case *ast.BinaryExpr:
+							switch x.Op {
+							case token.GEQ, token.GTR:
+								lo = true
+							case token.LEQ, token.LSS:
+								hi = true
+							}
+						case *ast.CallExpr:
+							if f, ok := calleeObj(info, x).(*types.Func); ok && f.Pkg() != nil && f.Pkg().Path() == Mod+"/vm" {
+								if g := p.SSA.FuncValue(f); g != nil && len(g.Params) >= 1 {
+									up, low := true, true
+									for _, gb := range g.Blocks {
+										if ret, ok := terminator(gb).(*ssa.Return); ok {
+											if !trueImpliesUpperBound(returnOperand(ret, 0), g.Params[len(g.Params)-1], 0) {
+												up = false
+											}
+											if !trueImpliesLowerBound(returnOperand(ret, 0), g.Params[len(g.Params)-1], 0) {
+												low = false
+											}
+										}
+									}
+									lo, hi = lo || low, hi || up
+								}
+							}
+						}
+						return true
+					})
+					if !(lo && hi) {
+						continue
+					}
+					for _, later := range bs.List[i+1:] {
+						ast.Inspect(later, func(m ast.Node) bool {
+							if ce, ok := m.(*ast.CallExpr); ok {
+								if f, ok := calleeObj(info, ce).(*types.Func); ok && (f.Name() == "PutUint16" || writesOperandHelper(p, f)) {
+									ranged = true
+								}
+							}
+							return true
+						})
+					}
+				}
+			}
+			ast.Inspect(body, func(n ast.Node) bool {
 				iff, ok := n.(*ast.IfStmt)
 				if !ok {
 					return true
@@ -1426,4 +1555,121 @@ func vmSqrtIsFloat(p *Program) bool {
 		}
 	}
 	return false
+}
+
+// compareFoldByValue: the function that folds a comparison of the two window
+// entries, evaluated for the opcode: with the entries' values equal it must
+// write what the VM's operator gives for equal integers, with them unequal the
+// opposite.  Every == / != between two values read from entries of one list
+// stands for "the entries are equal" / its negation.
+func compareFoldByValue(p *Program, fn *ssa.Function, op, want string) (bool, string) {
+	oc := p.Opcodes()
+	var opc ssa.Value
+	for _, prm := range fn.Params {
+		if isOpcodeType(prm.Type()) {
+			opc = prm
+		}
+	}
+	if opc == nil {
+		return false, ""
+	}
+	fromEntry := func(v ssa.Value) bool {
+		for d := 0; d < 4; d++ {
+			switch x := v.(type) {
+			case *ssa.Field:
+				v = x.X
+				continue
+			case *ssa.UnOp:
+				if fa, ok := x.X.(*ssa.FieldAddr); ok {
+					v = fa.X
+					continue
+				}
+				if ia, ok := x.X.(*ssa.IndexAddr); ok {
+					_ = ia
+					return true
+				}
+			case *ssa.IndexAddr:
+				return true
+			case *ssa.Alloc:
+				// a local copy of an entry
+				n, all := 0, true
+				for _, ref := range *x.Referrers() {
+					if st, ok := ref.(*ssa.Store); ok && st.Addr == ssa.Value(x) {
+						n++
+						ld, isLd := st.Val.(*ssa.UnOp)
+						if !isLd {
+							all = false
+						} else if _, isIA := ld.X.(*ssa.IndexAddr); !isIA {
+							all = false
+						}
+					}
+				}
+				return n > 0 && all
+			}
+			break
+		}
+		return false
+	}
+	var eqs, neqs []*ssa.BinOp
+	for _, b := range fn.Blocks {
+		for _, ins := range b.Instrs {
+			if bo, ok := ins.(*ssa.BinOp); ok && (bo.Op == token.EQL || bo.Op == token.NEQ) && fromEntry(bo.X) && fromEntry(bo.Y) {
+				if bo.Op == token.EQL {
+					eqs = append(eqs, bo)
+				} else {
+					neqs = append(neqs, bo)
+				}
+			}
+		}
+	}
+	if len(eqs)+len(neqs) == 0 {
+		return false, ""
+	}
+	collect := func(ins ssa.Instruction) (string, bool) {
+		st, ok := ins.(*ssa.Store)
+		if !ok {
+			return "", false
+		}
+		ia, ok := st.Addr.(*ssa.IndexAddr)
+		if !ok || !isByteSlice(ia.X.Type()) {
+			return "", false
+		}
+		if name := oc.ssaName(st.Val); name == "OpTrue" || name == "OpFalse" {
+			return name, true
+		}
+		return "", false
+	}
+	outcome := func(equal bool) pathOutcomes {
+		env := map[ssa.Value]constant.Value{opc: constant.MakeInt64(oc.byName[op])}
+		for _, bo := range eqs {
+			env[bo] = constant.MakeBool(equal)
+		}
+		for _, bo := range neqs {
+			env[bo] = constant.MakeBool(!equal)
+		}
+		return pathOutcomesWith(p, fn, env, collect)
+	}
+	wantEq, wantNe := "OpTrue", "OpFalse"
+	if want == "!=" {
+		wantEq, wantNe = "OpFalse", "OpTrue"
+	}
+	// paths that write nothing (not enough entries) are not folds
+	only := func(po pathOutcomes, w string) bool {
+		n := 0
+		for k := range po {
+			if k == "error" || k == "nothing" {
+				continue
+			}
+			n++
+			if k != w {
+				return false
+			}
+		}
+		return n > 0
+	}
+	oe, on := outcome(true), outcome(false)
+	if only(oe, wantEq) && only(on, wantNe) {
+		return true, fmt.Sprintf("evaluated for %s: equal entries give %s, unequal entries %s — the VM's %s", op, wantEq, wantNe, want)
+	}
+	return false, ""
 }
